@@ -47,7 +47,7 @@ func init() {
 	}
 	registry["C18"] = &propCfg{
 		Engine: pull.Engine{}, EngineName: "pull", Level: "exploration",
-		QuickRuns: 800000, ThoroughRuns: 10000000, QuickCapS: 60, ThoroughCapS: 900,
+		QuickRuns: 500000, ThoroughRuns: 10000000, QuickCapS: 60, ThoroughCapS: 900,
 		Rule: "one run = one stream of k in [0,6] top-level values from the independent writers, read through 3-6 decoder/reader plans (NewBytesDecoder, or NewDecoder with buffer size from {1,2,3,7,16,64,4096}, seeded short-read sizes, EOF with or after the data, optional truncation inside a value); evaluations = decoder plans executed; distinct by (stream bytes, constructor, buffer size, read plan, eof mode); every plan is non-trivial (k+1 Next calls against a scheduled reader)",
 		Components: map[string][]string{
 			"real": {"json.Decoder", "ubjson.Decoder", "cborl.Decoder", "the three push parsers (per-value reference)"},
@@ -56,7 +56,7 @@ func init() {
 	}
 	registry["C03"] = &propCfg{
 		Engine: hostile.Engine{}, EngineName: "hostile", Level: "exploration",
-		QuickRuns: 150000, ThoroughRuns: 4000000, QuickCapS: 60, ThoroughCapS: 900,
+		QuickRuns: 100000, ThoroughRuns: 4000000, QuickCapS: 60, ThoroughCapS: 900,
 		Rule: "one run = one valid stream from the independent writers, then either 6-15 hostile inputs derived from it (1-4 seeded corruptions: bit flip, byte replace, interesting-byte replace/insert, delete, truncate, length inflation; splices; pure random bytes), each delivered through 2-3 of {Parse, ParseString, Write* under a seeded chunking, ParseReader and Decoder.Next loops under seeded short reads / buffer sizes / EOF modes}, or (1 run in 3) every strict prefix ending inside a value (96 sampled if more) through the five entry points that know the end; evaluations = guarded entry-point executions; distinct by (input bytes, entry, schedule); all are non-trivial (hostile or truncated input)",
 		Components: map[string][]string{
 			"real": {"json/ubjson/cborl Parser", "json/ubjson/cborl Decoder", "io.Copy"},
